@@ -8,7 +8,8 @@ CONSTANTS
   TokenForFailed = FALSE
   UdsKeepsToken = FALSE
   ServeWhilePending = FALSE
+  StopServesQueued = FALSE
 SPECIFICATION TSpec
-INVARIANTS T_B_PhaseAsSpec T_C01_OwnListenersService T_C07_NoCallWhilePending T_C07_WaitsThenServed T_B_MadeAsSpec T_C08_ReplacementStarted
+INVARIANTS T_B_PhaseAsSpec T_C01_OwnListenersService T_C07_NoCallWhilePending T_C07_WaitsThenServed T_B_MadeAsSpec T_C08_ReplacementStarted T_C01_QueuedReleasedAtStop
 POSTCONDITION TraceAccepted
 CHECK_DEADLOCK FALSE
